@@ -83,7 +83,9 @@ ARG = {
     'NOSPACE': [b''],      # glued to the previous token: handled by the joiner
     'TRAILSP': [b' '],
     'BARELF': [b'\n'],
-    'LONG': [b'a' * 30000, b'"' + b'b' * 30000 + b'"'],
+    'LONG': [b'a' * 30000, b'"' + b'b' * 30000 + b'"',
+             # longer than the stream reader's limit (64 KiB)
+             b'c' * 70000, b'"' + b'd' * 140000 + b'"'],
     # tokens of the grammar-shaped lines
     'NUM_DIGITS': [b'9' * 5000, b'1' + b'0' * 4400],       # beyond Python's int digit limit
     'LIT_DIGITS': [b'{' + b'9' * 5000 + b'+}', b'{' + b'1' * 4400 + b'}'],
